@@ -58,10 +58,13 @@ type scenario struct {
 	Kinds   [][]string `json:"kinds"`   // per caller, per op: inc | decline | fail | failretry
 	Plan    []int      `json:"plan"`
 	Seed    bool       `json:"precreate"` // key exists before the callers start
+	// steps after which a writer outside the callers completes a whole compare-and-swap on a SECOND key
+	// ("kk", of which the callers' key "k" is a prefix): keys are independent, neither chain may notice
+	Other []int `json:"other_key_writes,omitempty"`
 }
 
 func (s scenario) String() string {
-	return fmt.Sprintf("backend=%s wrapper=%s precreate=%v kinds=%v plan=%v delete_at=%d", s.Backend, s.Wrapper, s.Seed, s.Kinds, s.Plan, s.DeleteAt)
+	return fmt.Sprintf("backend=%s wrapper=%s precreate=%v kinds=%v plan=%v delete_at=%d other_key_writes=%v", s.Backend, s.Wrapper, s.Seed, s.Kinds, s.Plan, s.DeleteAt, s.Other)
 }
 
 type env struct {
@@ -205,6 +208,7 @@ type outcome struct {
 	mirrorChecked bool
 	rivals        int
 	deletes       int
+	others        int
 }
 
 // execute runs the callers under the schedule: at each step the plan picks among "start a caller not
@@ -391,6 +395,50 @@ func execute(t *testing.T, sc scenario) (out outcome) {
 				fail("%s: the stored counter is %d but %d compare-and-swap calls have reported success so far (committed (caller, op, input): %s)", where, got, n, cs)
 			}
 		}
+		// the second key: whole compare-and-swap calls by a writer of its own, checked against its own counter
+		otherDone := 0
+		checkOther := func(where string) {
+			if len(sc.Other) == 0 {
+				return
+			}
+			v, err := client.Get(ctx, "kk")
+			if err != nil {
+				fail("%s: Get of the other key: %v", where, err)
+				return
+			}
+			d := ring.GetOrCreateRingDesc(v)
+			want := otherDone
+			if otherDone > 0 {
+				want++
+			}
+			if got := counterOf(v); got != int64(otherDone) || len(d.Ingesters) != want {
+				fail("%s: the other key holds counter %d and entries %v, but %d writes to it have succeeded (the callers only ever write their own key)", where, got, names(d), otherDone)
+			}
+		}
+		otherWrite := func(where string) {
+			var in int64
+			err := client.CAS(ctx, "kk", func(v interface{}) (interface{}, bool, error) {
+				in = counterOf(v)
+				d := ring.GetOrCreateRingDesc(v)
+				cnt := d.Ingesters["counter"]
+				cnt.Timestamp = in + 1
+				cnt.Addr = "counter"
+				d.Ingesters["counter"] = cnt
+				d.Ingesters[fmt.Sprintf("other-%d", in)] = ring.InstanceDesc{Timestamp: 1, Addr: "y"}
+				return d, true, nil
+			})
+			if err != nil {
+				fail("%s: compare-and-swap on the other key (no competitor there): %v", where, err)
+				return
+			}
+			if in != int64(otherDone) {
+				fail("%s: the write on the other key was handed counter %d, %d writes to it have succeeded", where, in, otherDone)
+				return
+			}
+			otherDone++
+			out.others++
+			checkOther(where)
+		}
 		step := func(choice int) bool {
 			vx.Wait()
 			mu.Lock()
@@ -438,6 +486,12 @@ func execute(t *testing.T, sc scenario) (out outcome) {
 			}
 			vx.Wait()
 			checkNow(fmt.Sprintf("after step %d", len(out.branching)))
+			for _, at := range sc.Other {
+				if at == len(out.branching) && out.failure == "" {
+					otherWrite(fmt.Sprintf("after step %d", at))
+					checkNow(fmt.Sprintf("after the write on the other key following step %d", at))
+				}
+			}
 			if sc.DeleteAt > 0 && len(out.branching) == sc.DeleteAt && out.failure == "" {
 				// the key is deleted and its deletion marker expires and is purged; callers that read the key
 				// before must not succeed with what they computed from the deleted value
@@ -453,6 +507,7 @@ func execute(t *testing.T, sc scenario) (out outcome) {
 				mu.Unlock()
 				out.deletes++
 				checkNow(fmt.Sprintf("after the deletion following step %d", len(out.branching)))
+				checkOther(fmt.Sprintf("after the deletion of the callers' key following step %d", len(out.branching)))
 			}
 			return out.failure == ""
 		}
@@ -474,6 +529,10 @@ func execute(t *testing.T, sc scenario) (out outcome) {
 			return
 		}
 		wg.Wait()
+		checkOther("at the end")
+		if out.failure != "" {
+			return
+		}
 		v, err := client.Get(ctx, "k")
 		if err != nil {
 			fail("final Get: %v", err)
@@ -580,8 +639,14 @@ func TestCASSchedulesRapid(t *testing.T) {
 				sc.DeleteAt = d
 			}
 		}
+		if rapid.IntRange(0, 2).Draw(rt, "otherKey") == 0 {
+			sc.Other = rapid.SliceOfN(rapid.IntRange(1, 16), 1, 4).Draw(rt, "otherKeyWrites")
+		}
 		out := execute(t, sc)
 		vx.Eval(1)
+		if out.others > 0 {
+			vx.Class("schedules_with_writes_on_a_second_key_in_between", 1)
+		}
 		vx.Class("backend_"+sc.Backend, 1)
 		vx.Class("wrapper_"+sc.Wrapper, 1)
 		if out.deletes > 0 {
